@@ -686,6 +686,13 @@ pub fn run(opts: &Opts) -> Report {
             }
         }
     }
+    // bound dyn values: sharing an allocation between two bindings is not observable
+    {
+        use crate::facets::dynwrap as dw;
+        let mut vals = dw::scalars();
+        vals.extend(dw::containers());
+        dw::sharing(&mut rep, &["a == b", "a != b", "[1, a] == [1, b]", "a == b ? 'same' : 'different'", "{'k': a} == {'k': b}", "a in [b]"], &vals);
+    }
     rep.notes.push(format!("thread test: {} threads x {} repetitions x 12 histories, each thread with its own contexts", threads, reps));
     rep.exhaustive = true;
     rep.compare_with_model_par(&opts.driver, &pending, 16);
